@@ -143,6 +143,15 @@ CHECKS = {
         "note": "Compiler + compiled probe are the oracle for 'compiles' and 'returns'; canonical comment text; embed references, docs starting with a field's own name and documented embedded fields are not generated.",
         "technique": "TLA+-enumerated domain with a model-computed oracle, TLC trace judge over the compiled program's answers",
     },
+    "C17": {
+        "level": "exploration",
+        "text": "DeepCopy.tla holds a heap model (struct trees with container identities) in which TLC checks that a copy allocating fresh containers at every by-value nesting depth makes "
+                "every mutation of the copy invisible to the original (and exhibits the sharing otherwise), and enumerates selections of 15 field kinds x 4 variants as generated struct types. "
+                "The real deepcopy generator runs through gengo twice per package; the module is compiled and a reflective probe reports nil->nil, DeepEqual, the alias relation of every "
+                "container path and the effect of mutating every container of the copy; DeepCopyTrace.tla judges the logged facts.",
+        "note": "Compiler and compiled probe are the oracle; the model supplies domain, alias law and the design-level proof. Containers are followed through by-value struct nesting only.",
+        "technique": "TLA+ heap model checked by TLC + TLA+-enumerated type graphs, TLC trace judge over compiler / probe verdicts",
+    },
     "C19": {
         "level": "model_checking",
         "text": "CamelCase.tla models Split as a rune-class scanner with an explicit PANIC outcome; TLC proves it total, lossless and free of empty "
